@@ -2738,7 +2738,7 @@ def make_ext_modules(I):
         if isinstance(v, Ref):
             e = st.get(v)
             if e.kind != "obj":
-                c = e.copy()
+                c = e.detached() if e.kind == "nd" else e.copy()
                 if e.kind == "dict":
                     c.owner = None  # a copy of obj.__dict__ is a plain dict, not the live view
                     c.items = dict(e.items)
@@ -2844,7 +2844,7 @@ def make_ext_modules(I):
                     else:
                         raise Unsupported("deepcopy: __getstate__ result is not a dict")
                     return new
-                c = e.copy()
+                c = e.detached() if e.kind == "nd" else e.copy()
                 if e.kind == "dict":
                     c.owner = None  # a copy of obj.__dict__ is a plain dict, not the live view
                 if e.kind == "nd":
@@ -2993,7 +2993,7 @@ def make_ext_modules(I):
                 node = memo[v.id] = ["set", list(e.items)]
                 return node
             if e.kind == "nd":
-                node = memo[v.id] = ["nd", e.copy(), None]
+                node = memo[v.id] = ["nd", e.detached(), None]
                 node[2] = [rec(x) for x in e.data]
                 return node
             if e.kind != "obj":
@@ -3076,7 +3076,7 @@ def make_ext_modules(I):
                 new = lm[id(node)] = S[0].alloc(SetE(node[1]))
                 return new
             if kind == "nd":
-                c = node[1].copy()
+                c = node[1].detached()
                 c.data = [build(x) for x in node[2]]
                 new = lm[id(node)] = S[0].alloc(c)
                 return new
